@@ -246,7 +246,11 @@ var edits = []edit{
 	}},
 	{"comment-only", func(r *Rng, p *L.Project) bool {
 		m := pickMod(r, p, func(*L.Module) bool { return true })
-		m.Comment += " edited"
+		if r.Bool() {
+			m.Comment += " edited"
+		} else {
+			m.Comment += "\n// an added comment line" // shifts every original line: source-map-only change
+		}
 		return true
 	}},
 	{"legal-comment-text", func(r *Rng, p *L.Project) bool {
@@ -318,7 +322,11 @@ var edits = []edit{
 			return false
 		}
 		c := &p.CSS[r.Intn(len(p.CSS))]
-		c.Comment += " edited"
+		if r.Bool() {
+			c.Comment += " edited"
+		} else {
+			c.Comment += " edited\n   continued on an added line"
+		}
 		return true
 	}},
 	{"css-legal-comment-text", func(r *Rng, p *L.Project) bool {
@@ -445,6 +453,18 @@ func gluePairs(r *Rng, n int, st *Stats) {
 		var e edit
 		for tries := 0; tries < 20; tries++ {
 			e = edits[r.Intn(len(edits))]
+			if r.Chance(25) {
+				e = edits[3+r.Intn(2)*8] // comment-only / css-comment-only: the source-map-only changes
+			}
+			if strings.Contains(e.name, "comment-only") {
+				// a comment edit is visible only through the source map (sourcesContent, or with
+				// sourcesContent excluded only through the mappings): make sure there is one
+				if pa.Opt.Sourcemap == "" || pa.Opt.Sourcemap == "inline" {
+					pa.Opt.Sourcemap = []string{"linked", "external", "both"}[r.Intn(3)]
+				}
+				pa.Opt.NoSrcContent = r.Bool()
+				pa.Opt.MinifyW = false
+			}
 			pb = pa.Clone()
 			if e.apply(r, pb) {
 				break
